@@ -54,8 +54,16 @@ pub fn muted<R>(f: impl FnOnce() -> R) -> R {
     f()
 }
 
+/// Yield points that belong to ONE property's step granularity and sit inside operations other streams treat as a single
+/// step (the closure of the gauge's `fetch_update`, hook b22dc8e): threads park there only while the stream that models
+/// them has switched them on; for every other stream they are part of the grant that is running.
+pub static GAUGE_CAS_POINTS: std::sync::atomic::AtomicBool = std::sync::atomic::AtomicBool::new(false);
+
 fn hook(id: &'static str) {
     if MUTED.with(|m| m.get()) {
+        return;
+    }
+    if id == "atomics.gauge.cas" && !GAUGE_CAS_POINTS.load(std::sync::atomic::Ordering::Relaxed) {
         return;
     }
     let me = ME.with(|m| m.borrow().clone());
@@ -99,6 +107,11 @@ pub struct RunResult {
     pub timed_out: bool,
     pub panicked: Vec<usize>,
 }
+
+/// Upper bound on the number of grants of one run (0 = unlimited, the default).  A run that reaches it is given up
+/// like one that makes no progress (`timed_out`): for streams in which a defective retry loop could otherwise be
+/// granted forever (C04's CAS loops).  Set it before `run`, reset it to 0 afterwards.
+pub static GRANT_LIMIT: std::sync::atomic::AtomicUsize = std::sync::atomic::AtomicUsize::new(0);
 
 /// Runs `bodies` as managed threads under `schedule` (ids that are not runnable are skipped; when the
 /// schedule is exhausted the lowest runnable id is taken).
@@ -149,6 +162,13 @@ pub fn run_deadline(bodies: Vec<Box<dyn FnOnce() + Send + 'static>>, schedule: &
             break;
         }
         if st.status.iter().all(|x| *x == Status::Finished) {
+            break;
+        }
+        let limit = GRANT_LIMIT.load(std::sync::atomic::Ordering::Relaxed);
+        if limit != 0 && res.trace.len() >= limit {
+            res.timed_out = true;
+            st.free_run = true;
+            s.cv.notify_all();
             break;
         }
         let runnable: Vec<usize> = (0..n)
